@@ -22,10 +22,12 @@ LayoutDrift(e) ==
   (IF e.le # <<>> /\ e.le # <<CodeCensus(e.layout)["lf"], CodeCensus(e.layout)["crlf"], CodeCensus(e.layout)["cr"]>>
    THEN {"CensusAsModel"} ELSE {}) \cup
   (IF e.chosen # "" /\ e.chosen # Choose(e.opt, CodeCensus(e.layout)) THEN {"ChoiceAsModel"} ELSE {})
-(* when the choice is wrong: the line kinds whose terminators, had they been counted, make    *)
-(* the coded choice a most frequent one - the signature of a census gap                        *)
-CensusWith(L, ks) == [t \in Terms |-> Count(L, t, Counted \cup ks)]
-Why(e) == {k \in PropKinds \ Counted : Choose(e.opt, CensusWith(e.layout, {k})) \in ArgMax(PropCensus(e.layout))}
+(* when the choice is wrong AND it is exactly the choice the coded census makes: the uncounted  *)
+(* line kinds present in the layout - the signature of a census gap.  A wrong choice that the    *)
+(* coded census does not explain has no such signature (it is a different defect).               *)
+Why(e) == IF ToSet(e.terms) = {Choose(e.opt, CodeCensus(e.layout))}
+          THEN {k \in PropKinds \ Counted : \E j \in 1..Len(e.layout) : e.layout[j].k = k}
+          ELSE {}
 AllEqual(sq) == \A i, j \in 1..Len(sq) : sq[i] = sq[j]
 TNext == /\ l <= Len(TraceLog) /\ l' = l + 1 /\ UNCHANGED vars
          /\ LET e == Ev
